@@ -19,6 +19,8 @@
 #include <AIToolbox/Factored/MDP/CooperativeMaximumLikelihoodModel.hpp>
 #include <AIToolbox/Factored/MDP/CooperativeThompsonModel.hpp>
 #include <AIToolbox/Factored/Utils/Core.hpp>
+#include <AIToolbox/Seeder.hpp>
+#include <random>
 
 using namespace verif;
 namespace M = AIToolbox::MDP;
@@ -420,6 +422,109 @@ static void thompsonCase(const char * comp, Rng & rng, long nrec, int rewardMode
 }
 
 // ---------------------------------------------------------------------------------------------
+// Thompson models with the engine outputs: the harness replays the model's private std::mt19937 from the
+// same seed (ThompsonModel: Seeder::getSeed() under a fixed root seed; CooperativeThompsonModel: the engine is
+// default-constructed) and performs the same sequence of distribution calls, so it knows every draw.
+struct TRow { std::vector<size_t> cnt; size_t N; double mean, M2; std::vector<double> g; double t, sd; };
+
+static TRow shadowSync(std::mt19937 & eng, const std::vector<size_t> & cnt, size_t N, double mean, double M2) {
+    TRow r{cnt, N, mean, M2, {}, 0.0, 0.0};
+    for (auto c : cnt) { std::gamma_distribution<double> d((double)c + 0.5, 1.0); r.g.push_back(d(eng)); }
+    if (N >= 2) {
+        std::student_t_distribution<double> d((double)(N - 1));
+        r.t = d(eng);
+        r.sd = std::sqrt(M2 / (double)(N * (N - 1)));
+    }
+    return r;
+}
+
+static void emitT(Line & l, const TRow & r) {
+    for (auto c : r.cnt) l << c;
+    l << r.N << r.mean << r.M2;
+    for (auto g : r.g) l << g;
+    l << r.t << r.sd;
+}
+
+template <class E>
+static void tsyncCase(const char * comp, Rng & rng, long nrec, int rewardMode) {
+    size_t S = (size_t)rng.range(1, 5), A = (size_t)rng.range(1, 3);
+    unsigned root = (unsigned)rng.next();
+    AIToolbox::Seeder::setRootSeed(root);
+    unsigned seed = AIToolbox::Seeder::getSeed();
+    AIToolbox::Seeder::setRootSeed(root);
+    E exp(S, A);
+    // some data before construction in half of the cases
+    if (rng.coin()) for (long k = 0; k < nrec / 2; ++k) exp.record(rng.below(S), rng.below(A), rng.below(S), drawReward(rng, rewardMode));
+    std::mt19937 shadow(seed);
+    std::vector<TRow> last(S * A);
+    auto snap = [&](size_t s, size_t a) {
+        std::vector<size_t> cnt(S); for (size_t s1 = 0; s1 < S; ++s1) cnt[s1] = exp.getVisits(s, a, s1);
+        last[s * A + a] = shadowSync(shadow, cnt, exp.getVisitsSum(s, a), exp.getReward(s, a), exp.getM2(s, a));
+    };
+    auto syncAllShadow = [&]() { for (size_t a = 0; a < A; ++a) for (size_t s = 0; s < S; ++s) snap(s, a); };
+    auto emit = [&](const M::ThompsonModel<E> & tm) {
+        Line l; l << "C07" << "tsync" << comp << S << S * A;
+        for (size_t s = 0; s < S; ++s) for (size_t a = 0; a < A; ++a) {
+            emitT(l, last[s * A + a]);
+            for (size_t s1 = 0; s1 < S; ++s1) l << tm.getTransitionProbability(s, a, s1);
+            l << tm.getExpectedReward(s, a, 0);
+        }
+        l.emit();
+    };
+    M::ThompsonModel<E> tm(exp, 0.9); syncAllShadow();
+    emit(tm);
+    for (long k = 0; k < nrec; ++k) {
+        size_t s = rng.coin(2, 3) ? 0 : rng.below(S), a = rng.below(A);
+        exp.record(s, a, rng.below(S), drawReward(rng, rewardMode));
+        if (rng.coin(1, 3)) { snap(s, a); tm.sync(s, a); }
+        if (rng.coin(1, 40)) { syncAllShadow(); tm.sync(); emit(tm); }
+    }
+    emit(tm);
+    if (rng.coin()) { exp.reset(); syncAllShadow(); tm.sync(); emit(tm); }
+}
+
+static void tsyncCoopCase(Rng & rng, long nrec, int rewardMode) {
+    F::DDNGraph g = randomGraph(rng);
+    const auto & S = g.getS(); const auto & A = g.getA();
+    size_t nf = S.size();
+    FM::CooperativeExperience exp(g);
+    std::mt19937 shadow;     // CooperativeThompsonModel never seeds its engine
+    std::vector<std::vector<TRow>> last(nf);
+    for (size_t i = 0; i < nf; ++i) last[i].resize(g.getSize(i));
+    auto snap = [&](size_t i, size_t j) {
+        std::vector<size_t> cnt(S[i]); for (size_t k = 0; k < S[i]; ++k) cnt[k] = exp.getVisitsTable()[i](j, k);
+        last[i][j] = shadowSync(shadow, cnt, exp.getVisitsTable()[i](j, S[i]), exp.getRewardMatrix()[i][j], exp.getM2Matrix()[i][j]);
+    };
+    auto syncAllShadow = [&]() { for (size_t i = 0; i < nf; ++i) for (size_t j = 0; j < g.getSize(i); ++j) snap(i, j); };
+    auto emit = [&](const FM::CooperativeThompsonModel & tm) {
+        for (size_t i = 0; i < nf; ++i) {
+            Line l; l << "C07" << "tsync" << "CooperativeThompsonModel" << S[i] << g.getSize(i);
+            for (size_t j = 0; j < g.getSize(i); ++j) {
+                emitT(l, last[i][j]);
+                for (size_t k = 0; k < S[i]; ++k) l << tm.getTransitionFunction().transitions[i](j, k);
+                l << tm.getRewardFunction()[i][j];
+            }
+            l.emit();
+        }
+    };
+    FM::CooperativeThompsonModel tm(exp, 0.9); syncAllShadow();
+    emit(tm);
+    for (long k = 0; k < nrec; ++k) {
+        F::State s(nf), s1(nf); F::Action a(A.size());
+        for (size_t q = 0; q < nf; ++q) { s[q] = rng.coin(3, 4) ? 0 : rng.below(S[q]); s1[q] = rng.below(S[q]); }
+        for (size_t q = 0; q < A.size(); ++q) a[q] = rng.below(A[q]);
+        F::Rewards rews(nf); for (size_t i = 0; i < nf; ++i) rews[i] = drawReward(rng, rewardMode);
+        const auto & ids = exp.record(s, a, s1, rews);
+        if (rng.coin(1, 3)) {
+            for (size_t i = 0; i < nf; ++i) snap(i, g.getId(i, s, a));
+            if (rng.coin()) tm.sync(s, a); else tm.sync(ids);
+        }
+        if (rng.coin(1, 40)) { syncAllShadow(); tm.sync(); emit(tm); }
+    }
+    emit(tm);
+}
+
+// ---------------------------------------------------------------------------------------------
 static const long kFixed = 12;
 
 long verif::verif_ncases(const std::string & tier) { return kFixed + (tier == "thorough" ? 5000 : 330); }
@@ -540,7 +645,16 @@ void verif::verif_case(Rng & rng, long idx, const std::string & tier) {
         case 7: fbanditCase(rng, rng.range(1, nops), rng.coin(1, 5) ? 1 : 0, junk); std::printf("#stat fbandit 1\n"); break;
         case 8: case 9: coopCase(rng, rng.range(1, nops), rng.coin(1, 5) ? 1 : 0, junk, rng.coin(1, 3)); std::printf("#stat coop 1\n"); break;
         case 10:
-            if (rng.coin(2, 3)) { thompsonCase<M::Experience>("ThompsonModel", rng, rng.range(0, nops), rng.coin(1, 5) ? 1 : 0); std::printf("#stat thompson 1\n"); }
+            if (rng.coin(1, 2)) {
+                switch (rng.below(4)) {
+                    case 0: tsyncCase<M::Experience>("ThompsonModel", rng, rng.range(0, nops), rng.coin(1, 5) ? 1 : 0); break;
+                    case 1: tsyncCase<M::SparseExperience>("ThompsonModel<SparseExperience>", rng, rng.range(0, nops), rng.coin(1, 5) ? 1 : 0); break;
+                    case 2: tsyncCase<GenericExperience>("ThompsonModel<generic>", rng, rng.range(0, nops), rng.coin(1, 5) ? 1 : 0); break;
+                    default: tsyncCoopCase(rng, rng.range(0, nops), rng.coin(1, 5) ? 1 : 0); break;
+                }
+                std::printf("#stat thompson_with_draws 1\n");
+            }
+            else if (rng.coin(2, 3)) { thompsonCase<M::Experience>("ThompsonModel", rng, rng.range(0, nops), rng.coin(1, 5) ? 1 : 0); std::printf("#stat thompson 1\n"); }
             else { thompsonCase<GenericExperience>("ThompsonModel<generic>", rng, rng.range(0, nops), rng.coin(1, 5) ? 1 : 0); std::printf("#stat thompson_generic 1\n"); }   // element-wise gamma branch
             break;
     }
